@@ -15,6 +15,7 @@ MANIFEST = {
     'note': 'Trusted: numpy (brute-force distances). The KD-tree itself is scipy\'s.',
     'technique': 'runtime post-condition monitor on the real kdt_match with brute-force distance oracle, seeded random workload',
 }
+LOGGER_ON_ODD_SHARDS = True
 BUDGET_S = {'quick': 60, 'thorough': 360}
 NCASES = {'quick': 10000, 'thorough': 100000}
 RULE = ('seeded random feature arrays x K x bound; non-trivial = both sets have >= 2 rows and at least one pair was returned; '
@@ -45,7 +46,7 @@ def gen_case(rng):
         x, y = x[:, 0], y[:, 0]
     K = int(rng.integers(1, 16))
     bound = gens.pick(rng, [np.inf, np.inf, 1.0, 0.3, 0.05])
-    return {'kind': 'kdt', 'x': x, 'y': y, 'K': K, 'bound': float(bound), 'ties': ties}
+    return {'kind': 'kdt', 'x': x, 'y': y, 'K': K, 'bound': float(bound), 'ties': ties, 'positional': bool(rng.random() < .3)}
 
 
 def check(ctx, case):
@@ -57,7 +58,10 @@ def check(ctx, case):
     x0, y0 = x.copy(), y.copy()
     try:
         with quiet():
-            xi, yi = C.kdt_match(x, y, K=K, distance_upper_bound=bound)
+            if case.get('positional'):
+                xi, yi = C.kdt_match(x, y, K, bound)          # the documented argument order, by position
+            else:
+                xi, yi = C.kdt_match(x, y, K=K, distance_upper_bound=bound)
     except Exception as e:
         ctx.case(dig, False)
         key = 'exception:%s' % type(e).__name__ + (':K=1' if K == 1 else '')
@@ -68,6 +72,8 @@ def check(ctx, case):
     ctx.count('calls')
     ctx.count('K=%d' % K)
     ctx.count('ties' if case['ties'] else 'tie_free')
+    if case.get('positional'):
+        ctx.count('positional_calls')
     if K > len(Y):
         ctx.count('K_exceeds_candidates')
     if xi.shape != yi.shape or xi.ndim != 1:
